@@ -291,7 +291,7 @@ def run_interpreted(b, model, decisions, work, tag):
     except subprocess.TimeoutExpired:
         return -9, [], []
     if not os.path.exists(out):
-        return p.returncode, [], []
+        return p.returncode, ["symx stderr: " + (p.stderr or "")[-400:]], []
     d = json.load(open(out))
     trace = d["samples"][0]["trace"] if d["samples"] else []
     return p.returncode, trace, [x["id"] for x in d["violations"]] + (["crash"] if d["paths_error"] else [])
